@@ -1339,6 +1339,12 @@ static hawk_ooi_t sf_in_open (hawk_t* hawk, hawk_sio_arg_t* arg, xtn_t* xtn)
 				const hawk_ooch_t* tmp;
 				tmp = hawk_stdgetfileindirs(hawk, &hawk->opt.includedirs, arg->name);
 				if (tmp) path = tmp;
+				else if (hawk_geterrnum(hawk) == HAWK_ENOMEM)
+				{
+					/* the search itself ran out of memory. don't report the file as missing */
+					if (dbuf) hawk_freemem (hawk, dbuf);
+					goto fail;
+				}
 			}
 
 			xpath = hawk_addsionamewithoochars(hawk, path, hawk_count_oocstr(path));
@@ -1354,6 +1360,7 @@ static hawk_ooi_t sf_in_open (hawk_t* hawk, hawk_sio_arg_t* arg, xtn_t* xtn)
 				const hawk_ooch_t* tmp;
 				tmp = hawk_stdgetfileindirs(hawk, &hawk->opt.includedirs, arg->name);
 				if (tmp) path = tmp;
+				else if (hawk_geterrnum(hawk) == HAWK_ENOMEM) goto fail; /* not 'not found' */
 			}
 
 			xpath = hawk_addsionamewithoochars(hawk, path, hawk_count_oocstr(path));
